@@ -1143,6 +1143,59 @@ fn tasks_strategy_base(t: Tier) -> BoxedStrategy<Scenario> {
     )
 }
 
+/// Scenarios of the hold sweep (C14): two in three have one stream shared by a stream task that
+/// drains it and one or two siblings that take a value and leave (through the direct methods or
+/// as tasks), with producers that keep their sender until their last value has been delivered - so
+/// that nothing but the notification the property demands can wake a task that parked wrongly.
+fn hold_sweep_strategy(t: Tier) -> BoxedStrategy<Scenario> {
+    use crate::gen::{COp, ConsumerPlan, Fin};
+    use crate::ops::DrainHow;
+    let shaped = (
+        gen::traffic_plan(
+            gen::qcfg(BOTH, FutMode::Always, prop_oneof![Just(1u8), Just(2u8)].boxed(), gen::wait_any()),
+            scaled(
+                TrafficParams {
+                    max_values: 4,
+                    max_producers: 2,
+                    max_streams: 1,
+                    max_consumers: 3,
+                    sink_tasks: true,
+                    leave: 3,
+                    gates: true,
+                    ..TrafficParams::default()
+                },
+                t,
+            ),
+            sched_len(t, 300),
+        ),
+        vec(prop_oneof![Just(COp::Recv), Just(COp::Next), Just(COp::TryRecv), Just(COp::Yield)], 1..3),
+        0u8..3,
+    )
+        .prop_map(|(mut plan, sib, extra)| {
+            plan.streams.truncate(1);
+            let s = &mut plan.streams[0];
+            s[0].fin = Fin::Drain(DrainHow::Poll, extra);
+            s[0].single = false;
+            s[0].fork = None;
+            if s.len() < 2 {
+                s.push(ConsumerPlan { ops: sib.clone(), fin: Fin::Leave, single: false, fork: None, fork_iter: false });
+            }
+            for c in s.iter_mut().skip(1) {
+                c.fin = Fin::Leave;
+                c.single = false;
+                c.fork = None;
+                if c.ops.is_empty() {
+                    c.ops = sib.clone();
+                }
+            }
+            for p in plan.producers.iter_mut() {
+                p.gate = Some(0);
+            }
+            gen::build_traffic(&plan, &fut_conc_opts())
+        });
+    prop_oneof![2 => shaped, 1 => tasks_strategy_base(t)].boxed()
+}
+
 fn c14_oracle(sc: &Scenario, ex: &Execution, info: &mut CaseInfo) -> Vec<Finding> {
     let (_wrap, overlap) = conc_common(sc, ex, info);
     let h = Hist::build(sc, ex);
@@ -1644,8 +1697,13 @@ pub fn registry() -> Vec<PropDef> {
                     source: Source::Systematic { strategy: tasks_strategy, cases: cases_fn!(20, 12) },
                     oracle: c14_oracle,
                 },
+                Part {
+                    name: "hold_sweep",
+                    source: Source::FreezeSweep { strategy: hold_sweep_strategy, cases: cases_fn!(12, 100), holds: true },
+                    oracle: c14_oracle,
+                },
             ],
-            rule: "futures queues, N in {1,2}: Sink and Stream tasks on a deterministic executor (a NotReady task is blocked until Notify::notify), other threads draining through the direct methods or dropping handles; oracle = scheduler stuck state with a parked task that could make progress; sequential part: after every call that makes progress possible for a parked task the task must have been notified; non-trivial (tasks) = some task got NotReady and calls overlapped; (sequential) = some task parked",
+            rule: "futures queues, N in {1,2}: Sink and Stream tasks on a deterministic executor (a NotReady task is blocked until Notify::notify), other threads draining through the direct methods or dropping handles; oracle = scheduler stuck state with a parked task that could make progress; sequential part: after every call that makes progress possible for a parked task the task must have been notified; part hold_sweep: for every generated scenario and every (thread, k <= 400) one execution in which that thread is held back at its k-th scheduling point until no other thread can make progress and then runs on, so that every window inside every poll / start_send / direct call is held open once while the others send, receive, park and leave; non-trivial (tasks, hold_sweep) = some task got NotReady and calls overlapped; (sequential) = some task parked",
             assumptions: vec![SC_ASSUME, SAMPLE_ASSUME],
         },
         PropDef {
@@ -1694,7 +1752,7 @@ pub fn registry() -> Vec<PropDef> {
             },
             Part {
                 name: "freeze_sweep",
-                source: Source::FreezeSweep { strategy: freeze_strategy, cases: cases_fn!(12, 120) },
+                source: Source::FreezeSweep { strategy: freeze_strategy, cases: cases_fn!(12, 120), holds: false },
                 oracle: c18_oracle,
             }],
             rule: "traffic on busy/yielding queues, and handle/stream churn scenarios (enough retirements to open reclamation epochs, so that the manager locks are taken and the epoch signal is raised); at generated points one thread freezes all others wherever they are and runs a single try_send / try_recv / try_recv_view alone; oracle = the call returns within 300 of its own scheduling points and never blocks on a lock held by a frozen thread; in addition EVERY try operation of every execution (not only the probes) may execute at most 300 scheduling points in a row without another thread changing shared state in between; part freeze_sweep: for every generated scenario and every (thread, k <= 400) one execution in which that thread is suspended for good at its k-th scheduling point while the others run on - none of their try operations may spin (same bound) or be found blocked on a lock; non-trivial = the probe ran while another thread was frozen strictly inside an API call (freeze sweep: the suspended thread was inside an API call)",
